@@ -41,7 +41,7 @@ var ctxKinds = []string{"subshell", "cmdsubst", "procin", "procout", "pipe", "bg
 
 func isBg(ctx string) bool {
 	switch ctx {
-	case "subshell", "cmdsubst":
+	case "subshell", "cmdsubst", "backquote":
 		return false
 	}
 	return true
@@ -54,6 +54,8 @@ func wrap(ctx, c string) string {
 		return "( " + c + " )"
 	case "cmdsubst":
 		return ": \"$( " + c + " )\""
+	case "backquote":
+		return ": \"`" + c + "`\""
 	case "procin":
 		return "__drain < <( " + c + " ); wait"
 	case "procout":
@@ -216,6 +218,18 @@ var wideCmds = []string{
 	"RANDOM=1", "SECONDS=1", "LINENO=1", "FUNCNAME=x", "PIPESTATUS=1", "UID=5", "EUID=5", "PPID=1", "_=1", "a=1 b=2 s=3 m=4",
 }
 
+// soloCmds: the mutation happens INSIDE AN EXPANSION of an argument of a harmless command,
+// which is the only statement of the isolating construct (no inner snapshot)
+var soloCmds = []string{
+	"echo $((i++))", "echo $((i+=2))", "echo $((x=5))", "echo $((i--)) $((x=7))", "echo ${d:=v}", "echo ${d=v}", "echo ${e:=w}${d:=v}",
+	"printf %s ${d:=v}", "printf '%s' \"$((i++))\"", "printf %s ${a[5]=x}", "printf %s ${a[5]:=x}", "echo \"${a[$((i++))]}\"", "echo ${#d} ${d:=vv}",
+	"pwd", ": $((i++))", ": ${d:=v}", "true $((x=5)) ${d:=v}", "test -n $((i++))", "[ $((i++)) -gt 0 ]", "[[ $((i++)) -gt 0 ]]", "(( i++ ))", "let i++",
+	"echo $(( a[1]=9 ))", "echo ${m[k]:=vv}", "echo $((OPTIND=5))", "echo ${IFS:=x}${IFS::0}", "echo $(echo $((i++)))", "echo `echo $((i++))`",
+	"echo hi >/dev/null $((i++))", "i=$((i+1)) echo", "echo $((i++)) & wait", "echo $((i++)) | :", "x=5", "read -r x <<< 5", "for x in 5; do :; done",
+}
+
+const soloPre = "i=1; x=0; a=(p q); declare -A m=([j]=w); unset d e"
+
 func main() {
 	o := hx.ParseArgs()
 	defer hx.Flush()
@@ -276,7 +290,7 @@ func main() {
 		// whole input space: parent states from operations, child = wide command lists
 		r := hx.Rand(o.Seed, 2700)
 		g := &hxc27.Gen{R: r, Dirs: dirs}
-		kinds := []string{"subshell", "cmdsubst", "procin", "procout", "pipe", "bg", "pipe_last", "none"}
+		kinds := []string{"subshell", "cmdsubst", "procin", "procout", "pipe", "bg", "pipe_last", "none", "backquote"}
 		rep := strings.NewReplacer("D1", dirs[1], "D2", dirs[2])
 		for i := 0; i < o.N; i++ {
 			ctx := kinds[i%len(kinds)]
@@ -298,6 +312,12 @@ func main() {
 			}
 			out.ChildS = strings.Join(cs, "; ")
 			tail := "__snap p0; " + wrap(ctx, out.ChildS+"; __snap c") + "; __snap p1"
+			if i%5 == 4 {
+				// solo: a single command whose argument expansion assigns; nothing else inside the construct
+				out.ChildS = hx.Pick(r, soloCmds)
+				tail = "__snap p0; " + wrap(ctx, out.ChildS) + "; __snap p1"
+				parent = append(parent, hxc27.Op{Op: "assign", Name: "i", Rhs: &hxc27.Rhs{Kind: "str", S: "1"}})
+			}
 			out.Prog = "n=1; r=0; " + hxc27.Render(parent, tail)
 			out.Bash = bashProg(out.Prog)
 			if _, err := hxc27.Parse(out.Prog); err != nil {
@@ -341,11 +361,25 @@ func main() {
 			}
 		}
 		progs = append(progs, struct{ ctx, pre, child string }{"pipe_last", "a=1", "a=5"})
+		// solo: one command, mutation inside an argument expansion, no snapshot inside the construct
+		for _, ctx := range []string{"subshell", "cmdsubst", "backquote", "procin", "procout", "pipe", "bg"} {
+			for _, c := range soloCmds {
+				if ctx == "backquote" && (strings.Contains(c, "`") || strings.Contains(c, "[[")) {
+					continue
+				}
+				progs = append(progs, struct{ ctx, pre, child string }{ctx, "SOLO", c})
+				progs = append(progs, struct{ ctx, pre, child string }{ctx, "SOLOF", c})
+			}
+		}
 		progs = append(progs, struct{ ctx, pre, child string }{"pipe_last", "b=(x y)", "b+=(z); cd /"})
 		for i, p := range progs {
 			out := Out{ID: i, Mode: "witness", Ctx: p.ctx, Bg: isBg(p.ctx)}
 			body := "__snap p0; " + wrap(p.ctx, p.child+"; __snap c") + "; __snap p1"
-			if strings.Contains(p.pre, "w() { X; }") {
+			if p.pre == "SOLO" {
+				out.Prog = soloPre + "; __snap p0; " + wrap(p.ctx, p.child) + "; __snap p1"
+			} else if p.pre == "SOLOF" { // inside a function body, with a local of the same name
+				out.Prog = soloPre + "; w() { local i=3; __snap p0; " + wrap(p.ctx, p.child) + "; __snap p1; }; w"
+			} else if strings.Contains(p.pre, "w() { X; }") {
 				out.Prog = strings.Replace(p.pre, "X", body, 1) + "; w"
 			} else if strings.Contains(p.pre, "X") {
 				out.Prog = strings.Replace(p.pre, "X", body, 1) + "; f"
